@@ -26,6 +26,8 @@ class NodeEnv:
         self.qmem = qmem
         self.clock = clock
         self.instr_done = 0          # completed instructions (progress measure for the liveness watches)
+        self.slow_clear = False      # clearing a physical qubit suspends the instruction (set per run)
+        self.slow_clears = 0
         self.before_instr: List[Callable] = []
         self.after_instr: List[Callable] = []
         self.retry_armed = False
@@ -141,8 +143,17 @@ class SimExecutor(Executor):
         return None
 
     def _clear_phys_qubit_in_memory(self, physical_address):
+        # the documented seam is a generator ("to be subclassed for different quantum processors"): with slow_clear the
+        # simulated hardware takes its time, i.e. the instruction (qfree, or an application stop) is suspended here and
+        # other parties may run before it goes on
         self.env.qmem.release(physical_address)
+        if self.env.slow_clear:
+            return self._slow_clear(physical_address)
         return None
+
+    def _slow_clear(self, physical_address):
+        self.env.slow_clears += 1
+        yield ("clear", physical_address)
 
 
 class SimQNodeController(QNodeController):
